@@ -16,6 +16,7 @@ CONSTANTS
   MAXRESTART = 1
   UPDENDS = {}
   MAXUPD = 0
+  ADDS = {}
   SECONDBAD = FALSE
   FAILBUDGET = 99
 VIEW View
